@@ -6,6 +6,12 @@ def M(name, props, *edits, benign=False):
     return dict(name=name, props=props, edits=list(edits), benign=benign)
 
 FE = "src/evaluator/flop_exhaustive.rs"
+CP = "src/hand_range/card_pair.rs"
+TK = "src/hand_range/hand_range_token.rs"
+RK = "src/card/rank.rs"
+ST = "src/card/suit.rs"
+CD = "src/card/card.rs"
+RR = "src/card/rank_range.rs"
 SD = "src/evaluator/showdown.rs"
 
 MUTANTS = [
@@ -32,6 +38,34 @@ MUTANTS = [
     M("c03-winner-len-skip", ["C03"], (SD, "        for player in &self.players {\n            if player.win {", "        for player in self.players.iter().skip(1) {\n            if player.win {")),
     M("c03-and-instead-of-or", ["C03"], (SD, "if board.contains(&player[0]) || board.contains(&player[1]) {", "if board.contains(&player[0]) && board.contains(&player[1]) {")),
     M("benign-c03-gt-form", ["C03"], (SD, "if power_index <= strongest_index {\n                if power_index < strongest_index {", "if strongest_index >= power_index {\n                if strongest_index > power_index {"), benign=True),
+    M("c13-char-swap", ["C13"], (RK, "            'K' => Ok(Rank::King),\n            'Q' => Ok(Rank::Queen),", "            'K' => Ok(Rank::Queen),\n            'Q' => Ok(Rank::King),")),
+    M("c13-extra-char", ["C13"], (RK, "            'T' => Ok(Rank::Ten),", "            'T' | 't' => Ok(Rank::Ten),")),
+    M("c13-mask-bit", ["C13"], (CD, "const CLUB_MASK: u64 = 0b1000100010001000100010001000100010001000100010001000;", "const CLUB_MASK: u64 = 0b0000100010001000100010001000100010001000100010001000;")),
+    M("c13-decoder-order", ["C13"], (CD, "        } else if value & QUEEN_MASK >= 1 {\n            Rank::Queen", "        } else if value & QUEEN_MASK >= 1 {\n            Rank::Jack")),
+    M("c13-next-skip", ["C13"], (RK, "            Rank::Four => Some(Rank::Trey),", "            Rank::Four => Some(Rank::Deuce),")),
+    M("c13-suit-code", ["C13"], (ST, "            Suit::Diamond => 2,\n            Suit::Club => 3,", "            Suit::Diamond => 3,\n            Suit::Club => 2,")),
+    M("c13-range-new-inclusive", ["C13"], (RR, "            end: u8::from(end) as usize,\n            inclusive: false,", "            end: u8::from(end) as usize,\n            inclusive: true,")),
+    M("c13-range-arms-swapped", ["C13"], (RR, "            true => RANKS[self.start..=self.end].into(),\n            false => RANKS[self.start..self.end].into(),", "            false => RANKS[self.start..=self.end].into(),\n            true => RANKS[self.start..self.end].into(),")),
+    M("c13-display-swapped", ["C13"], (CD, 'write!(f, "{}{}", self.rank(), self.suit())', 'write!(f, "{}{}", self.suit(), self.rank())')),
+    M("c13-fromstr-slices", ["C13"], (CD, "(Rank::from_str(&v[0..1]), Suit::from_str(&v[1..2]))", "(Rank::from_str(&v[0..1]), Suit::from_str(&v[0..2]))")),
+    M("c13-ranks-table", ["C13"], (RR, "    Rank::Ace,\n    Rank::King,\n    Rank::Queen,", "    Rank::Ace,\n    Rank::Queen,\n    Rank::King,")),
+    M("benign-c13-reorder-arms", ["C13"], (RK, "            'A' => Ok(Rank::Ace),\n            'K' => Ok(Rank::King),", "            'K' => Ok(Rank::King),\n            'A' => Ok(Rank::Ace),"), benign=True),
+    M("benign-c13-mask-expr", ["C13"], (CD, "const ACE_MASK: u64 = 0b0000000000000000000000000000000000000000000000001111;", "const ACE_MASK: u64 = 0xF;"), benign=True),
+    M("c14-raw-in-fromstr", ["C14"], (CP, "(Ok(l), Ok(r)) => Ok(CardPair::new(l, r)),", "(Ok(l), Ok(r)) => Ok(CardPair(l, r)),")),
+    M("c14-new-reversed", ["C14"], (CP, "        if left > right {\n            CardPair(right, left)", "        if left < right {\n            CardPair(right, left)")),
+    M("c14-new-no-swap", ["C14"], (CP, "        if left > right {\n            CardPair(right, left)", "        if left > right {\n            CardPair(left, right)")),
+    M("benign-c14-display-swapped", ["C14"], (CP, 'write!(f, "{}{}", self.0, self.1)', 'write!(f, "{}{}", self.1, self.0)'), benign=True),
+    M("c14-display-one-card", ["C14"], (CP, 'write!(f, "{}{}", self.0, self.1)', 'write!(f, "{}{}", self.0, self.0)')),
+    M("c14-index-swapped", ["C14"], (CP, "            0 => &self.0,\n            1 => &self.1,", "            0 => &self.1,\n            1 => &self.0,")),
+    M("c14-pub-field", ["C14"], (CP, "pub struct CardPair(Card, Card);", "pub struct CardPair(pub Card, pub Card);")),
+    M("c14-fromstr-slices", ["C14"], (CP, "match (Card::from_str(&value[0..2]), Card::from_str(&value[2..4])) {", "match (Card::from_str(&value[0..2]), Card::from_str(&value[0..2])) {")),
+    M("benign-c14-lt-form", ["C14"], (CP, "        if left > right {\n            CardPair(right, left)", "        if right < left {\n            CardPair(right, left)"), benign=True),
+    M("c15-static-atomic", ["C15"], (FE, "        let mut player_card_pairs = vec![];", "        static DEALS: std::sync::atomic::AtomicUsize = std::sync::atomic::AtomicUsize::new(0);\n        if DEALS.fetch_add(1, std::sync::atomic::Ordering::Relaxed) == usize::MAX { self.current_used_cards.clear(); }\n        let mut player_card_pairs = vec![];")),
+    M("c15-static-mut", ["C15"], (FE, "        let mut player_card_pairs = vec![];", "        static mut LAST: u8 = 0;\n        unsafe { LAST = self.current_turn_index; }\n        let mut player_card_pairs = vec![];")),
+    M("c15-thread-local", ["C15"], (SD, "        let mut showdown_players = vec![];", "        thread_local! { static SEEN: std::cell::Cell<u32> = std::cell::Cell::new(0); }\n        SEEN.with(|s| s.set(s.get() + 1));\n        let mut showdown_players = vec![];")),
+    M("c15-cell-field", ["C15"], (FE, "pub struct FlopExhaustiveEvaluator {\n    board: [Option<Card>; 5],", "pub struct FlopExhaustiveEvaluator {\n    #[allow(dead_code)]\n    hits: std::cell::Cell<u32>,\n    board: [Option<Card>; 5],"), (FE, "        Self {\n            board: board.clone(),", "        Self {\n            hits: std::cell::Cell::new(0),\n            board: board.clone(),")),
+    M("c15-rc-field", ["C15"], (FE, "    players: Vec<HandRange>,\n    turn_from: u8,", "    players: std::rc::Rc<Vec<HandRange>>,\n    turn_from: u8,"), (FE, "            players: players.clone(),", "            players: std::rc::Rc::new(players.clone()),")),
+    M("benign-c15-parser-regex-cache", ["C15"], (TK, "        let single_card_pair_regex =\n            Regex::new(", "        static CACHE: std::sync::OnceLock<Regex> = std::sync::OnceLock::new();\n        let _ = &CACHE;\n        let single_card_pair_regex =\n            Regex::new("), benign=True),
     M("c08-recursion", ["C08"], (FE, """        loop {
             if let Some(showdown) = self.next_deal()? {
                 return Some(showdown);
